@@ -101,6 +101,19 @@ class StoreFeatureCallee(Contract):
             if found:
                 h5model._grp_delitem(interp, events, feat)
         wn = WriteNdarrayCallee(with_summaries=self.with_summaries)
+        from pyvc.sym import SOpaque
+        if feat == "trace":
+            # {name: stack}: each named trace grows by the given events (C01 StoreFeatureTrace)
+            tgrp = h5model._grp_require(interp, events, "trace")
+            for tr_name, stack in data.items():
+                wn(interp, hw, group=tgrp, name=tr_name, data=stack, dtype=None)
+            return None
+        if feat == "contour" and isinstance(data, SOpaque):
+            # one contour: the ragged group grows by this entry (C01 write_ragged); the group is
+            # represented by the sequence of its entries
+            one = ctx.arr("one_contour", "elem", n=1)
+            ctx.assume(one.sel(0) == data.e)
+            data = one
         if feat == "index":
             arr = npmodel.as_arr(interp, data)
             found, ds0 = _grp_lookup(interp, events, "index")
